@@ -92,8 +92,14 @@ func tokenizeStream(src io.Reader, normalize bool, dict *dictionary, updateDict 
 
 	var doc indexedDocument
 
+	// io.ReadFull reports a short final read as io.ErrUnexpectedEOF. A reader can
+	// also fail with io.ErrUnexpectedEOF of its own (a truncated compressed
+	// stream, for example); that is a failure of the reader and must be returned,
+	// not taken for the end of the input. Remember what the reader itself said.
+	tracked := &errTrackingReader{r: src}
+	src = tracked
 	isEOF := func(in error) bool {
-		return in == io.EOF || in == io.ErrUnexpectedEOF
+		return in == io.EOF || (in == io.ErrUnexpectedEOF && tracked.err == io.EOF)
 	}
 
 	// Read out the stream in chunks
@@ -235,6 +241,20 @@ func tokenizeStream(src io.Reader, normalize bool, dict *dictionary, updateDict 
 	doc.runes = diffWordsToRunes(&doc, 0, doc.size())
 	doc.Norm = doc.normalized()
 	return &doc, nil
+}
+
+// errTrackingReader records the last error returned by the wrapped reader.
+type errTrackingReader struct {
+	r   io.Reader
+	err error
+}
+
+func (t *errTrackingReader) Read(p []byte) (int, error) {
+	n, err := t.r.Read(p)
+	if err != nil {
+		t.err = err
+	}
+	return n, err
 }
 
 func appendToDoc(doc *indexedDocument, dict *dictionary, line int, in []tokenID, ld *dictionary, normalize bool, updateDict bool, linebuf []tokenID) {
